@@ -3,7 +3,6 @@ import MythVerif.Proofs.WsQueueTsoTac
 namespace MythVerif.WsqTso
 open MythVerif.Wsq
 
-set_option maxHeartbeats 4000000 in
 theorem o_pq (s s' : St) : Inv s → s.opc = .pq → stepO s = some s' → Inv s' := by
   intro h heq hs
   have hc := h.carryC (by simp [heq, carry])
@@ -14,7 +13,6 @@ theorem o_pq (s s' : St) : Inv s → s.opc = .pq → stepO s = some s' → Inv s
   all_goals (simp at hs; subst hs)
   all_goals tso_fastO h heq [carryC]
 
-set_option maxHeartbeats 4000000 in
 theorem o_po1 (s s' : St) : Inv s → s.opc = .po1 → stepO s = some s' → Inv s' := by
   intro h heq hs
   have hc := h.carryC (by simp [heq, carry])
@@ -23,7 +21,6 @@ theorem o_po1 (s s' : St) : Inv s → s.opc = .po1 → stepO s = some s' → Inv
   simp at hs; subst hs
   tso_fastO h heq [carryC]
 
-set_option maxHeartbeats 4000000 in
 theorem o_pof (s s' : St) (t) : Inv s → s.opc = .pof t → stepO s = some s' → Inv s' := by
   intro h heq hs
   have hcfg := h.cfg
